@@ -669,6 +669,31 @@ def rule_sentinel_sites(program, ctx, prop=P, rid="C13.sentinel"):
         raise AnalysisError("no sentinel put found")
 
 
+def rule_query_task(program, ctx, prop=P, rid="C13.task"):
+    ctx.rule(
+        rid,
+        "CLOSE / a same-id REQ cancel exactly the coroutine that sends the stored events: BaseSubscription.start binds `self.query_task` to "
+        "`asyncio.create_task(self.run_query())` - not to a wrapper that awaits run_query through asyncio.wait / shield / ensure_future (cancelling the wrapper does not "
+        "cancel the inner future: the old query keeps queueing events and its EOSE after the CLOSE)",
+        floor=1,
+    )
+    st = program.func("nostr_relay.storage.base:BaseSubscription.start")
+    binds = [s_ for s_ in walk_no_nested(st) if isinstance(s_, ast.Assign) and any(dotted(t) == "self.query_task" for t in s_.targets)]
+    if not binds:
+        ctx.bad(finding_func(prop, rid, st, "BaseSubscription.start no longer binds self.query_task", text="def start(...) :: query_task"))
+    for b in binds:
+        v = b.value
+        okv = isinstance(v, ast.Call) and call_name(v).split(".")[-1] in ("create_task", "ensure_future") and v.args and isinstance(v.args[0], ast.Call) and dotted(v.args[0].func) == "self.run_query"
+        if okv:
+            ctx.ok(rid, b, "query_task = create_task(self.run_query())")
+        else:
+            ctx.bad(finding_at(prop, rid, b, f"query_task is `{ast.unparse(v)[:60]}`, not the task of self.run_query() itself: cancel() on CLOSE / replacement may not reach the coroutine that "
+                               "queues the stored events and the EOSE"))
+    for name in ("wait", "shield", "wait_for"):
+        for c in [c for c in ast.walk(st) if isinstance(c, ast.Call) and call_name(c).split(".")[-1] == name]:
+            ctx.bad(finding_at(prop, rid, c, f"start() runs the query behind asyncio.{name}: cancellation of the outer task does not cancel the query"))
+
+
 def rule_config_types(program, ctx, prop=P, rid="C13.config"):
     ctx.rule(
         rid,
@@ -699,6 +724,7 @@ def rule_config_types(program, ctx, prop=P, rid="C13.config"):
 def run(program, ctx):
     rule_notify_atomic(program, ctx)
     rule_config_types(program, ctx)
+    rule_query_task(program, ctx)
     from . import c19 as _c19
 
     # a leaked query slot (relay-wide semaphore) parks every later REQ before its EOSE
